@@ -381,6 +381,11 @@ func (g *gen) pattern(base string, st *refState) (string, string) {
 		}
 	}
 	f = string(b)
+	// a reference that is INBOX in some spelling, with and without the delimiter
+	if g.rng.Chance(0.04) {
+		tail := []string{"%", "*", g.d + "%", g.d + "*", "", g.d}[g.rng.Pick(6)]
+		return flipCase("INBOX", g.rng), tail
+	}
 	// split into reference and pattern
 	switch y := g.rng.Pick(100); {
 	case y < 45 || f == "":
